@@ -71,7 +71,7 @@ def single_instruction_modules(g, rng, lay, tier):
     from props import c02
     seen = set()
     for decls, inst, family in c02.gen_cases(g, rng, "quick"):
-        if family in ("rand", "many") and tier != "thorough":
+        if family == "maxwords" or (family in ("rand", "many") and tier != "thorough"):
             continue
         opc = int(inst.split("/")[0], 16)
         tok = lay.token(opc)[0]
